@@ -2,7 +2,7 @@ use super::service::ServerProxyConfig;
 use crate::protocol::{Array, BulkStr, Resp, RespPacket, RespVec};
 use arc_swap::ArcSwapOption;
 use chrono::{naive, DateTime, Utc};
-use std::cmp::max;
+use std::cmp::{max, min};
 use std::str;
 use std::sync::atomic;
 use std::sync::Arc;
@@ -122,7 +122,12 @@ impl SlowlogRecord {
 
         let limit_len = |mut s: String| {
             let real_len = s.len();
-            s.truncate(MAX_ELEMENT_LENGTH);
+            // `String::truncate` panics when the new length is not on a char boundary.
+            let mut new_len = min(real_len, MAX_ELEMENT_LENGTH);
+            while !s.is_char_boundary(new_len) {
+                new_len -= 1;
+            }
+            s.truncate(new_len);
             if real_len > MAX_ELEMENT_LENGTH {
                 let postfix = format!("({}bytes)", real_len);
                 s.push_str(&postfix)
